@@ -74,7 +74,7 @@ def _cases(ctx, nl):
             lensgen.reorder_fields(spec, rng)      # the full-field chief ray does not depend on the order of the field list
             hist['fields_reordered'] = hist.get('fields_reordered', 0) + 1
         edits = []
-        route = {3: 'reuse', 5: 'roundtrip'}.get(li % 7, 'direct') if li >= len(corp) else 'direct'
+        route = {1: 'handbuilt', 3: 'reuse', 5: 'roundtrip'}.get(li % 7, 'direct') if li >= len(corp) else 'direct'
         hist['route_' + route] = hist.get('route_' + route, 0) + 1
         try:
             o = lensgen.build_via(spec, route, rng)
@@ -93,7 +93,8 @@ def _cases(ctx, nl):
         hist['lenses'] += 1
         hist['with_mirror'] += int(any(r['refl'] for r in rows))
         hist['catalogue_glass'] += int(any(isinstance(s['material'], list) and s['material'][0] == 'glass' for s in spec['surfaces']))
-        cases.append(dict(rows=rows, g=g, out=out, spec=spec, edits=edits, par=par[:3]))
+        cases.append(dict(rows=rows, g=g, out=out, spec=spec, edits=edits, route=route,
+                          par=[dict(b, kind='seidel-input') for b in lensgen.prescription_problems(spec, o, None, edits)][:2] + par[:3]))
     return cases, hist
 
 
